@@ -686,10 +686,12 @@ def stepSimple (s : St) (op : Op) : Option (St × String) :=
     | some d, some h =>
       if d.fl ≠ h.fl then ok s "badtype" else
       if d.lvl ≠ h.lvl then ok s "badlevel" else
-      if d.impl = h.impl then ok s "ok" else
+      -- signal_base::operator=(const signal_base& src): `if (&src == this) return *this; impl_ = src.impl();`
+      if j = i then ok s "ok" else
       match ensureImpl s i with
       | none => ok s "dead"
       | some (s, im) =>
+        if d.impl = some im then ok s "ok" else
         let s := { s with G := aset s.G j { d with impl := some im } }
         ok (match d.impl with | some old => gcImpl s old | none => s) "ok"
     | _, _ => ok s "dead"
@@ -700,10 +702,11 @@ def stepSimple (s : St) (op : Op) : Option (St × String) :=
       if d.lvl ≠ h.lvl then ok s "badlevel" else
       if h.fl.isAcc then
         -- no move assignment for `accumulated`: copy assignment
-        if d.impl = h.impl then ok s "ok" else
+        if j = i then ok s "ok" else
         match ensureImpl s i with
         | none => ok s "dead"
         | some (s, im) =>
+          if d.impl = some im then ok s "ok" else
           let s := { s with G := aset s.G j { d with impl := some im } }
           ok (match d.impl with | some old => gcImpl s old | none => s) "ok"
       else if j = i then ok s "ok" else
